@@ -194,6 +194,9 @@ func (q *Query) Dimensions(dims []interface{}) error {
 			if hasTime {
 				return fmt.Errorf("groupBy cannot have more than one time dimension")
 			}
+			if dim <= 0 {
+				return fmt.Errorf("groupBy time dimension must be greater than zero, got %v", dim)
+			}
 			// Add time dimension
 			hasTime = true
 			q.groupByTimeDL = &influxql.DurationLiteral{
@@ -227,6 +230,9 @@ func (q *Query) Dimensions(dims []interface{}) error {
 		case TimeDimension:
 			if hasTime {
 				return fmt.Errorf("groupBy cannot have more than one time dimension")
+			}
+			if dim.Length <= 0 {
+				return fmt.Errorf("groupBy time dimension must be greater than zero, got %v", dim.Length)
 			}
 			// Add time dimension
 			hasTime = true
